@@ -20,14 +20,15 @@ RULE = ('distinct (t0, t1, bump) requests on which drange returned a list of at 
         'for a bump pointing away from t1; dt_bump self-test lines are not counted')
 TRUSTED = ['correspondence harness (pv.engine, pv.proto) and generators of pv.props.c10',
            'Lean driver parser/printer and period tokenizer (PygModel/Basic.lean, DRangeDriver.lean, DRange.parsePeriod)']
-ASSUMPTIONS = ['dateutil.rrule(freq, interval=k>0, dtstart, until) enumerates dtstart + i*k units while <= until (month-based units: day of month <= 28, time of day kept)',
+ASSUMPTIONS = ['dateutil.rrule(freq, interval=k>0, dtstart, until) enumerates dtstart + i*k units while <= until, from a dtstart without microseconds (drange puts the microseconds of t0 back, fix F14) (month-based units: day of month <= 28, time of day kept)',
                'datetime arithmetic agrees with integer microsecond arithmetic; CPython datetime ordinal/field arithmetic behaves as PygModel/Greg.lean (PygModel/Civil.lean is PROVED equal to Greg; still sampled through the bump op)',
-               'endpoints are whole seconds wherever rrule is involved (rrule drops microseconds); zero bumps and days of month > 28 with month-based units are outside the statement']
+               'zero bumps and days of month > 28 with month-based single periods are outside the statement']
 
 D = datetime.datetime
 TD = datetime.timedelta
 DAY = TD(1)
 UNIT_TD = dict(d=TD(1), w=TD(7), h=TD(hours=1), n=TD(minutes=1), s=TD(seconds=1))
+MIXED = ['1m-30d', '1m-4w', '1b-1d', '-1m30d', '1d-1b', '1y-12m', '1q-3m1d', '-1w6d', '2d-1b']
 COMPOUNDS = ['1w1d', '1m1d', '1y1m', '1m-1d', '2d12h', '1h30n', '1q1m', '1b1d', '1m1b', '2b1d', '1y1q1m1w1d', '1d1h1n1s', '3d-1h', '1n30s',
              '1w-1b', '2w1b']
 
@@ -116,6 +117,18 @@ def rand_spec(rng):
         span = rng.choice([0, 0, 1, 2, 3, 6, 7, 13, rng.randrange(1, 60), rng.randrange(60, 1100)])     # 0: t0 == t1, also on a weekend day
         t1 = t0 + sgn * span * DAY
         kind, bump = 'b', '%db' % (sgn * k)
+    elif r < 0.87:    # mixed-sign compound period strings: the step may turn round later on (F15), any units
+        if rng.random() < 0.25:
+            s = rng.choice(MIXED)
+        else:
+            ks = [rng.choice([1, 1, 2, 3, 4, 5, 30]) * sg for sg in rng.sample([1, -1, rng.choice([1, -1])], rng.choice([2, 3]))]
+            if all(k > 0 for k in ks) or all(k < 0 for k in ks):
+                ks[0] = -ks[0]
+            s = ''.join('%d%s' % (k, rng.choice('dwmqyhnsb')) for k in ks)
+        t0 = rand_start(rng, True, dom28=True)
+        span = rng.choice([1, 9, 40, 124, rng.randrange(1, 500)])
+        t1 = t0 + sgn * span * DAY + (TD(0) if rng.random() < 0.7 else sgn * TD(hours=5))
+        kind, bump = 'mixed', s
     else:             # compound period strings
         s = rng.choice(COMPOUNDS)
         t0 = rand_start(rng, True, dom28=True)
@@ -131,6 +144,8 @@ def rand_spec(rng):
         t1 = t0
     if t0 == t1:
         kind = 'equal-' + kind.split('-')[0]
+    elif kind == 'mixed':
+        pass
     elif rng.random() < 0.12 and bump is not None:   # point the bump away from t1
         kind = 'away-' + kind.split('-')[0]
         t1 = t0 - (t1 - t0)
@@ -269,6 +284,22 @@ def _laws(rng, tier, ctx):
         if kind.startswith('equal'):
             if res != [t0]:
                 yield bad('t0 == t1 must give [t0], got %s' % (res if isinstance(res, str) else res[:3]))
+            continue
+        if kind == 'mixed':
+            # a tenor of mixed signs: the exact range if every step moves strictly towards t1, ValueError as soon as one does not
+            # (never an empty list, never an unbounded one)
+            up = t1 > t0
+            want, t = [], t0
+            while (t <= t1 if up else t >= t1):
+                want.append(t)
+                nxt = _call(lambda: dt_bump(t, bump))
+                if isinstance(nxt, str) or (nxt <= t if up else nxt >= t):
+                    want = 'raise ValueError'
+                    break
+                t = nxt
+            if res != want:
+                yield bad("mixed-sign tenor '%s': expected %s, got %s" % (bump, want if isinstance(want, str) else 'the %d iterates of dt_bump' % len(want),
+                                                                          res if isinstance(res, str) else 'a list of %d' % len(res)))
             continue
         if kind.startswith('away'):
             if res != 'raise ValueError':
